@@ -23,7 +23,7 @@ pub const INFO: PropInfo = PropInfo {
         "a malformed request in the middle is smaller than the 1 KiB read buffer, so that one read consumes it",
         "request heads stay below 1 KiB",
     ],
-    expected_probes: &["c05.close_honoured", "c05.request_after_close_unanswered", "c05.malformed_in_middle", "c05.ctx_set_then_later_request", "c05.param_then_no_param", "c05.body_over_buffer", "c05.chaos_connection_alongside"],
+    expected_probes: &["c05.close_honoured", "c05.request_after_close_unanswered", "c05.malformed_in_middle", "c05.ctx_set_then_later_request", "c05.param_then_no_param", "c05.body_over_buffer", "c05.chaos_connection_alongside", "c05.short_reads_on_persistent"],
 };
 
 #[derive(Clone, Debug, Serialize, Deserialize)]
@@ -32,6 +32,10 @@ pub struct ConnPlan {
     pub think_ms: Vec<u64>,
     /// after a `Connection: close` request, still send the next one (it must not be answered)
     pub send_after_close: bool,
+    /// fault: the server's reads on the persistent connection return tape-chosen prefixes of what is available
+    /// (the fresh reference connections read whole segments)
+    #[serde(default)]
+    pub short_reads: bool,
 }
 /// a misbehaving connection running next to the observed ones (fault isolation between sessions)
 #[derive(Clone, Debug, Serialize, Deserialize)]
@@ -68,7 +72,7 @@ pub fn generate(_cfg: &RunCfg, _out: &mut Outcome) -> Scenario {
     for c in 0..n_conns {
         let reqs = sess::gen_sequence(c, &SeqOpts { min: 2, max: if c == 0 { 12 } else { 5 }, allow_malformed: true, allow_close: true, max_body: 3000, allow_delay: true });
         let think_ms = reqs.iter().map(|_| t::pick(&[0u64, 0, 1, 30, 2000])).collect();
-        conns.push(ConnPlan { reqs, think_ms, send_after_close: t::chance(1, 2) });
+        conns.push(ConnPlan { reqs, think_ms, send_after_close: t::chance(1, 2), short_reads: t::chance(1, 4) });
     }
     let chaos = (0..t::weighted(&[3, 2, 1])).map(|_| ChaosPlan { start_ms: t::pick(&[0u64, 0, 1, 30, 2000]), kind: t::draw(5) as u8, err: t::draw(4) as u8, delay_ms: t::pick(&[0u64, 1, 50]) }).collect();
     Scenario { conns, chaos }
@@ -118,6 +122,9 @@ fn execute(sc: &Scenario, out: &mut Outcome) {
     out.scenario = serde_json::to_value(sc).unwrap_or(serde_json::Value::Null);
     out.scenario_hash = rt::fnv64(serde_json::to_string(sc).unwrap_or_default().as_bytes());
 
+    if sc.conns.iter().any(|c| c.short_reads) {
+        out.probe("c05.short_reads_on_persistent");
+    }
     rt::serve(sess::build_app());
     let obs: Vec<Rc<RefCell<ConnObs>>> = sc.conns.iter().map(|_| Rc::new(RefCell::new(ConnObs::default()))).collect();
     for (ci, plan) in sc.conns.iter().enumerate() {
@@ -125,7 +132,7 @@ fn execute(sc: &Scenario, out: &mut Outcome) {
         let o = obs[ci].clone();
         let p = plan.clone();
         simcore::spawn_task(format!("persist{ci}"), "client", async move {
-            let Ok(mut c) = Client::connect(rt::ADDR, ConnCfg::default()).await else { return };
+            let Ok(mut c) = Client::connect(rt::ADDR, ConnCfg { short_reads: p.short_reads, ..ConnCfg::default() }).await else { return };
             let mut k = 0;
             while k < p.reqs.len() {
                 let it = &p.reqs[k];
